@@ -1,6 +1,10 @@
 From Coq Require Import ZArith NArith List Bool Lia Arith ZifyBool ZifyN ZifyNat.
 Import ListNotations.
 Require Import SR.Base.Res SR.Base.Dec SR.Gen.EstructParams SR.Gen.Cp037 SR.Gen.TextCodec SR.Spec.Encode SR.Model.Estruct.
+(* The definitions of this development that occur in theorem statements (Props/) live in Spec/EstructWf.v (audit item G1).
+   The abbreviations keep the qualified names EstructP.name of other files resolving; they are parsing-only aliases. *)
+Require Export SR.Spec.EstructWf.
+Notation is_none := SR.Spec.EstructWf.is_none (only parsing).
 Open Scope N_scope.
 Ltac Zify.zify_post_hook ::= Z.to_euclidean_division_equations.
 
@@ -488,8 +492,6 @@ Require Import SR.Spec.SizeCfg.
 
 Lemma cfgs_count : length cfgs = 4914%nat.
 Proof. vm_compute. reflexivity. Qed.
-
-Definition is_none {T} (o : option T) : bool := match o with None => true | Some _ => false end.
 
 Lemma C04_enumeration : forallb (fun c => Bool.eqb (is_none (known_bad_C04 c)) (cfg_ok c)) cfgs = true.
 Proof. vm_compute. reflexivity. Qed.
